@@ -25,6 +25,13 @@ type LexOpts struct {
 	KeepRaw       bool // retain the slices returned by Next(nil) for the aliasing check
 	// ComputedFirst: the attachment callback asks for ComputedCRC before ParsedCRC (both orders are legal)
 	ComputedFirst bool
+	// ExtraOpts: NewLexer is handed a second, zero-valued options struct after the real one. NewLexer takes
+	// its options as a variadic parameter and uses the first struct only, so this must change nothing.
+	// Lex also does it whenever ComputedFirst is set (the callers alternate that flag).
+	ExtraOpts bool
+	// AfterErr: after the terminal error (not after a clean end), Next is called this many more times and
+	// what it returns is recorded in LexResult.After
+	AfterErr int
 }
 
 // Out is one record delivered by the lexer (or its attachment callback).
@@ -45,6 +52,9 @@ type LexResult struct {
 	Outs  []Out
 	Err   error // terminal error (io.EOF for a clean end)
 	Panic *core.PanicError
+	// After holds the outcome of every further Next call made after the terminal error: the error, or nil
+	// when the call returned a token
+	After []error
 	raw   [][]byte
 	snap  []string
 }
@@ -148,7 +158,13 @@ func canonToken(tt mcap.TokenType, rec []byte) (string, error) {
 func Lex(r io.Reader, o LexOpts) *LexResult {
 	res := &LexResult{}
 	res.Panic = core.Safe(func() {
-		lexer, err := mcap.NewLexer(r, o.lexerOptions(res))
+		var lexer *mcap.Lexer
+		var err error
+		if o.ExtraOpts || o.ComputedFirst {
+			lexer, err = mcap.NewLexer(r, o.lexerOptions(res), &mcap.LexerOptions{})
+		} else {
+			lexer, err = mcap.NewLexer(r, o.lexerOptions(res))
+		}
 		if err != nil {
 			res.Err = err
 			return
@@ -162,6 +178,12 @@ func Lex(r io.Reader, o LexOpts) *LexResult {
 					continue
 				}
 				res.Err = err
+				if !errors.Is(err, io.EOF) {
+					for k := 0; k < o.AfterErr; k++ {
+						_, _, e := lexer.Next(nil)
+						res.After = append(res.After, e)
+					}
+				}
 				return
 			}
 			c, perr := canonToken(tt, rec)
@@ -221,6 +243,7 @@ type IterResult struct {
 	Metadata []string // canonical metadata records delivered to the callback
 	Info     *mcap.Info
 	InfoErr  error
+	After    []error // outcome of each further call after the terminal error (nil = a message was returned)
 
 	keptS []*mcap.Schema
 	keptC []*mcap.Channel
@@ -236,6 +259,7 @@ type IterOpts struct {
 	MetadataCB bool
 	WantInfo   bool
 	Max        int // stop after this many messages (0 = unlimited)
+	AfterErr   int // further Next calls after a terminal error (outcomes in IterResult.After)
 	// Sample is called after every successful NextInto (C20 memory monitor).
 	Sample func(it mcap.MessageIterator, n int)
 }
@@ -288,6 +312,10 @@ func ReadMessages(r io.Reader, o IterOpts) *IterResult {
 				}
 				res.Err = err
 				res.EOFWrap = errors.Is(err, io.EOF)
+				for k := 0; k < o.AfterErr; k++ {
+					_, _, _, e := it.NextInto(nil)
+					res.After = append(res.After, e)
+				}
 				return
 			}
 			if m == nil || c == nil {
